@@ -408,6 +408,20 @@ func c04Scenarios(tier string) []*Scenario {
 			Check: chk, NoTick: true,
 		})
 	}
+	for _, cont := range []bool{false, true} {
+		cont := cont
+		cfg := PipeCfg{Conc: 1, QL: -1, Graph: graphPar, Continue: cont}
+		scs = append(scs, &Scenario{
+			Name: fmt.Sprintf("cancel-running/par-with-failures/continue=%v", cont),
+			Desc: "two parallel tasks that may fail on their own; a client cancels the job at every possible instant (also after fail-fast has begun to stop it)",
+			Opts: func() WorldOpts { return WorldOpts{Defs: defsOf(cfg)} },
+			Setup: func(w *World) {
+				w.SpawnDriver(Op{Kind: "S", Pipeline: "p"})
+				w.SpawnDriver(Op{Kind: "C", Job: 1, WaitAccepted: 1})
+			},
+			Check: chk, NoTick: true, FailOK: true, Bound: heavyBound(tier),
+		})
+	}
 	cfgChain := PipeCfg{Conc: 1, QL: -1, Graph: graphChain}
 	scs = append(scs, &Scenario{
 		Name: "cancel-twice/chain",
@@ -503,8 +517,8 @@ func c06Scenarios(tier string) []*Scenario {
 				for _, d := range drivers {
 					w.SpawnDriver(d...)
 				}
-			}, Check: chk, NoTick: cfg.Delay == 0, Bound: func() *int {
-				if len(drivers) > 1 || cfg.Conc > 1 {
+			}, Check: chk, NoTick: cfg.Delay == 0, FailOK: strings.HasPrefix(name, "failure-"), Bound: func() *int {
+				if len(drivers) > 1 || cfg.Conc > 1 || strings.HasPrefix(name, "failure-") {
 					return heavyBound(tier)
 				}
 				return nil
@@ -512,10 +526,33 @@ func c06Scenarios(tier string) []*Scenario {
 	}
 	one := PipeCfg{Conc: 1, QL: -1, Graph: graphOne}
 	two := PipeCfg{Conc: 2, QL: -1, Graph: graphOne}
+	scs := c06List(mk, one, two, S)
+	for _, sc := range scs {
+		if strings.HasPrefix(sc.Name, "failure-") {
+			// only the tasks of the first job may fail (the later jobs just have to start in order)
+			sc.FailOK = false
+			sc.Env = func(w *World) []EnvEvent {
+				var evs []EnvEvent
+				for _, rs := range w.ParkedRuns() {
+					evs = append(evs, EnvEvent{Kind: "done", Inst: rs.inst, Task: rs.task})
+					if rs.inst == 1 {
+						evs = append(evs, EnvEvent{Kind: "fail", Inst: rs.inst, Task: rs.task})
+					}
+				}
+				return evs
+			}
+		}
+	}
+	return scs
+}
+
+func c06List(mk func(name, desc string, cfg PipeCfg, prefix []XEvent, acc int, drivers ...[]Op) *Scenario, one, two PipeCfg, S XEvent) []*Scenario {
 	return []*Scenario{
 		mk("completion-vs-schedule/conc1", "job 1 runs, jobs 2 and 3 wait; job 1 completes while a new request arrives", one, []XEvent{S, S, S}, 3, []Op{{Kind: "S", Pipeline: "p"}}),
 		mk("completion-vs-schedule/conc2", "jobs 1,2 run, jobs 3,4 wait; completions race with a new request", two, []XEvent{S, S, S, S}, 4, []Op{{Kind: "S", Pipeline: "p"}}),
 		mk("completion-vs-cancel/conc1", "job 1 runs, jobs 2,3,4 wait; cancel of job 2 races with the completion of job 1", one, []XEvent{S, S, S, S}, 4, []Op{{Kind: "C", Job: 2}}),
+		mk("cancel-of-running-vs-schedule/conc1", "job 1 runs, jobs 2,3 wait; job 1 is cancelled while a new request arrives", one, []XEvent{S, S, S}, 3, []Op{{Kind: "C", Job: 1}}, []Op{{Kind: "S", Pipeline: "p"}}),
+		mk("failure-of-running-vs-schedule/conc1", "job 1 runs two parallel tasks (fail-fast), job 2 waits; a task fails and, once the other task has been told to stop, a new request arrives", PipeCfg{Conc: 1, QL: -1, Graph: graphPar}, []XEvent{S, S}, 2, []Op{{Kind: "S", Pipeline: "p", WaitEvent: EvCancelCalled, WaitEventJob: 1}}),
 		mk("bad-head-vs-schedule/conc1", "job 1 runs, job 2 (cannot start) and jobs 3,4 wait; completion races with a new request", one, []XEvent{S, {Kind: "Sbad", P: "p"}, S, S}, 4, []Op{{Kind: "S", Pipeline: "p"}}),
 		mk("delayed/conc1", "three delayed jobs; timers, a cancel and a new request race", PipeCfg{Conc: 1, QL: -1, Graph: graphOne, Delay: dly}, []XEvent{S, S, S}, 3, []Op{{Kind: "C", Job: 1}}, []Op{{Kind: "S", Pipeline: "p"}}),
 	}
